@@ -165,7 +165,9 @@ def check_library_built(ctx, s, k=0):
         s = s.replace("\x00", "")
     try:
         if variant == 0:
-            dep = ht.HTMLDependency("lib", "1.0", source={"href": "https://cdn.example/base?" + s}, script={"src": "f.js", "integrity": s}, stylesheet={"href": "f.css", "media": s})
+            dep = ht.HTMLDependency("lib", "1.0", source={"href": "https://cdn.example/base?" + s},
+                                    script={"src": "f.js", "integrity": s, "defer": True, "nomodule": False, "crossorigin": None, "data-n": 5, "data-h": ht.HTML("a&amp;b")},
+                                    stylesheet={"href": "f.css", "media": s, "disabled": True, "title": None})
             lp = "lib"
         elif variant == 1:
             dep = ht.HTMLDependency("n" + s, "1.0", source={"subdir": "some/dir"}, script=[{"src": "a.js"}, {"src": "b.js", "data-x": s}], stylesheet={"href": "c.css"})
@@ -183,13 +185,18 @@ def check_library_built(ctx, s, k=0):
         ctx.violation("attr-supply-raises", "building / rendering a dependency with value %r raised %r" % (s[:60], e), {"value": s[:300], "variant": variant})
         return
     ctx.count("oracle.library_built_attributes")
+    # expected: the items as they were DEFINED (True = empty value, False/None = no attribute, HTML() verbatim), with the
+    # URL-valued key taken from as_dict() and rel/type defaults as as_dict() reports them
     want = []
-    for item in d["meta"]:
-        want.append(("meta", list(item.items())))
-    for item in d["stylesheet"]:
-        want.append(("link", list(item.items())))
-    for item in d["script"]:
-        want.append(("script", list(item.items())))
+    for kind_, el, urlkey in (("meta", "meta", None), ("stylesheet", "link", "href"), ("script", "script", "src")):
+        for given, reported in zip(getattr(dep, kind_), d[kind_]):
+            items = []
+            for k2, v2 in reported.items():
+                val = given.get(k2, v2) if k2 != urlkey else v2
+                if val is None or val is False:
+                    continue
+                items.append((k2, "" if val is True else val))
+            want.append((el, items))
     wit = {"value": s[:300], "variant": variant, "output": out[:1500]}
     try:
         toks = [t for t in tokenizer.tokenize(out) if t[0] == "open"]
@@ -201,7 +208,10 @@ def check_library_built(ctx, s, k=0):
         return
     for t, (n, items) in zip(toks, want):
         for (a, raw), (_, val) in zip(t[2], items):
-            why = charref.check_escaped(raw, str(val), charref.ATTR_SET)
+            if isinstance(val, ht.HTML):
+                why = None if raw == str(val) else "HTML() value not written verbatim"
+            else:
+                why = charref.check_escaped(raw, str(val), charref.ATTR_SET)
             if why:
                 ctx.violation("attr-plain-not-inert", "dependency tag <%s %s=\"%s\">: %s" % (n, a, raw[:80], why), wit)
                 return
@@ -258,7 +268,7 @@ def rand_case(rng):
         elif o == "setitem":
             ops.append({"op": "setitem", "name": rng.choice(RAW_NAMES), "v": rand_value(rng)})
         elif o == "remove_class":
-            tok = rng.choice(["k", "h", "x", "y", "hello", "foo"])
+            tok = rng.choice(["k", "h", "x", "y", "hello", "foo", "w-[100px]", "a?", "*", "h*", "[hk]", "hell?", "w[or]ld", "fo\\o", "(x)", "x|y", "^x", "x$", ".", "h.llo"])
             ops.append({"op": "remove_class", "v": rng.choice([S, HV])(rng.choice([tok, " " + tok, tok + "\n"]))})
         elif o == "add_class":
             v = rand_value(rng)
